@@ -27,6 +27,7 @@ import Ldap3V.Lemmas.CodecsResp
 import Ldap3V.Lemmas.CodecsEnvelope
 import Ldap3V.Lemmas.CodecsReadEntry
 import Ldap3V.Props.C15
+import Ldap3V.Lemmas.FilterShape
 namespace Ldap3V
 open Spec Codecs
 
@@ -126,6 +127,52 @@ theorem C19_matchedValues_req (ks : List Tlv) (hw : WF (.cons 0 16 ks))
     encMatchedValues none = .panic :=
   ⟨⟨_, rfl, C19_oids.2.2.2.2.2.2.2.2.1, rfl, matchedValues_req ks hw hd hl hc⟩, rfl⟩
 
+/-- `C19_assertion_req` at the output of the filter parser (`Assertion::new(filter)` runs
+`crate::filter::parse(filter)`): for EVERY filter string `s`, if it is accepted the control carries the BER
+of the tree built, which reads back as a Filter — `WF`, the length bound and the CHOICE tag are
+discharged by `C08_output_shape`; what remains is a bound on the input: `|s| < 2^58` and parentheses nested
+at most 62 deep (63 when `s` starts with `(`), because `DecodesTo` reads the value with lber's own parser
+(`maxDepth` = 64; deeper filters are written and refused, `C08_deep_written_not_read_back`) — and if it is
+rejected, `.expect("filter")` panics. -/
+theorem C19_assertion_req_parsed (s : Bytes) :
+    (∀ t, Filter.parse s = some t → s.length < 288230376151711744 →
+      (Filter.nest 0 s ≤ 62 ∨ (s.head? = some 0x28 ∧ Filter.nest 0 s ≤ 63)) →
+      ∃ rc, encAssertion ((Filter.parse s).map Tag.toTlv) = .ok rc ∧ rc.ctype = Codecs.Spec.rfcAssertion ∧
+        rc.crit = false ∧ rc.val = some (encode t.toTlv) ∧
+        Codecs.Spec.DecodesTo Codecs.Spec.filterOfTlv rc.val t.toTlv) ∧
+    (Filter.parse s = none → encAssertion ((Filter.parse s).map Tag.toTlv) = .panic) := by
+  refine ⟨?_, fun h => by rw [h]; rfl⟩
+  intro t h hl hn
+  obtain ⟨_, h2, h3, _, h5, _⟩ := Filter.parse_shape h
+  obtain ⟨hw, hlen⟩ := Filter.parse_wf h hl
+  have hd : t.toTlv.depth ≤ maxDepth := by
+    rcases hn with hn | ⟨hh, hn⟩
+    · simp only [maxDepth]; omega
+    · have := h5 hh; simp only [maxDepth]; omega
+  rw [h]
+  exact (C19_assertion_req t.toTlv hw hd (by omega) h2).1
+
+/-- `C19_matchedValues_req` at the output of the matched-values parser (`MatchedValues::new(filter)` runs
+`parse_matched_values(filter)`): every accepted string yields a universal SEQUENCE of `SimpleFilterItem`s,
+at most three levels deep, so only the size bound on the input remains; a rejected string panics. -/
+theorem C19_matchedValues_req_parsed (s : Bytes) :
+    (∀ t, Filter.parseMatchedValues s = some t → s.length < 288230376151711744 →
+      ∃ ks rc, t.toTlv = .cons 0 16 ks ∧ ks.all Codecs.Spec.isSimpleItem = true ∧
+        encMatchedValues ((Filter.parseMatchedValues s).map Tag.toTlv) = .ok rc ∧
+        rc.ctype = Codecs.Spec.rfcMatchedValues ∧ rc.crit = false ∧
+        Codecs.Spec.DecodesTo Codecs.Spec.valuesReturnFilterOfTlv rc.val (.cons 0 16 ks)) ∧
+    (Filter.parseMatchedValues s = none →
+      encMatchedValues ((Filter.parseMatchedValues s).map Tag.toTlv) = .panic) := by
+  refine ⟨?_, fun h => by rw [h]; rfl⟩
+  intro t h hl
+  obtain ⟨ks, e, _, hs, _, hd, _⟩ := Filter.parseMv_shape h
+  obtain ⟨hw, hlen⟩ := Filter.parseMv_wf h hl
+  rw [e] at hw hlen hd
+  obtain ⟨rc, h1, h2, h3, h4⟩ :=
+    (C19_matchedValues_req ks hw (by simp only [maxDepth]; omega) (by omega) hs).1
+  refine ⟨ks, rc, e, hs, ?_, h2, h3, h4⟩
+  rw [h, Option.map_some, e]; exact h1
+
 /-- RFC 4370 §3: criticality TRUE, value = the authzId octets themselves. -/
 theorem C19_proxyAuth_req (authzid : Bytes) :
     (encProxyAuth authzid).ctype = Codecs.Spec.rfcProxyAuth ∧ (encProxyAuth authzid).crit = true ∧
@@ -198,7 +245,7 @@ theorem C19_pagedResults_resp_negative (ck : Bytes) (bs : Bytes)
     Spec.twos [0xFF] = -1 ∧ parsePagedResults bs = .ok ⟨255, ck⟩ := by
   have hp := parseSeq_enc 0 16 _ bs he (by simp [Tlv.depth, Tlv.depthList, maxDepth]) hl
   refine ⟨by decide, ?_⟩
-  have : asI32 (parseUint [0xFF]) = 255 := by decide
+  have : Codecs.asI32 (parseUint [0xFF]) = 255 := by decide
   simp [parsePagedResults, hp, matchPrim, Tlv.cls, Tlv.id, Tlv.expectPrim, this]
 
 /-- RFC 4533 §2.3, all four states, any entryUUID, cookie present or absent. -/
@@ -450,6 +497,17 @@ example : encPasswordModify ⟨some [0x61], none, some [0x62]⟩ =
 /-- EndTxn abort -/
 example : encEndTxn ⟨[0x74, 0x78], false⟩ =
     ⟨some Codecs.Spec.rfcTxnEnd, some [0x30, 0x07, 0x01, 0x01, 0x00, 0x04, 0x02, 0x74, 0x78]⟩ := by decide
+
+/-- the hypotheses of `C19_assertion_req_parsed` / `C19_matchedValues_req_parsed` are met: `(&(a=b)(c=*))`
+is accepted, 13 octets long, nests 2 deep, and the Assertion control carries its BER; `((a=b)(c=*))` is an
+accepted matched-values filter; `(a=` is rejected by both parsers (the constructors panic) -/
+example : (Filter.parse [0x28, 0x26, 0x28, 0x61, 0x3D, 0x62, 0x29, 0x28, 0x63, 0x3D, 0x2A, 0x29, 0x29]).isSome = true ∧
+    Filter.nest 0 [0x28, 0x26, 0x28, 0x61, 0x3D, 0x62, 0x29, 0x28, 0x63, 0x3D, 0x2A, 0x29, 0x29] ≤ 62 ∧
+    (match encAssertion ((Filter.parse [0x28, 0x26, 0x28, 0x61, 0x3D, 0x62, 0x29, 0x28, 0x63, 0x3D, 0x2A, 0x29,
+        0x29]).map Tag.toTlv) with | .ok rc => rc.val | _ => none) =
+      some [0xA0, 0x0B, 0xA3, 0x06, 0x04, 0x01, 0x61, 0x04, 0x01, 0x62, 0x87, 0x01, 0x63] ∧
+    (Filter.parseMatchedValues [0x28, 0x28, 0x61, 0x3D, 0x62, 0x29, 0x28, 0x63, 0x3D, 0x2A, 0x29, 0x29]).isSome = true ∧
+    Filter.parse [0x28, 0x61, 0x3D] = none ∧ Filter.parseMatchedValues [0x28, 0x61, 0x3D] = none := by decide
 
 /-- a two-control list through build_tag / parse_controls: critical paged results + ManageDsaIT -/
 example : (∀ c ∈ [(⟨Codecs.Spec.rfcPagedResults, true, some [0x30, 0x05, 0x02, 0x01, 0x05, 0x04, 0x00]⟩ : RawControl),
